@@ -77,6 +77,39 @@ def check_case(mode: str, names, endian, align, res: JobResult, tier="quick", on
                     _c02_cuts(inp, o, T, viol, reader, res)
             else:
                 _c01_parsed(inp, o, T, viol, reader, res, eof_tail)
+        # history: the byte order is the one in effect when data is processed - switch it on the loaded object, check the same bytes under
+        # the other order, switch back and check again (anything cached per type under one order must not leak into the other)
+        base = next((i for i in ins if i.status == "ok" and i.label == "base" and (only_input is None or i.data.hex() == only_input)), None)
+        if base is not None:
+            other = "<" if endian == ">" else ">"
+            try:
+                for now in (other, endian):
+                    cs.endian = now
+                    try:
+                        inp2 = sc.model_decode(st, base.data, Cfg(endian=now, align=align), f"endian-history:{now}")
+                    except RefReject:
+                        continue
+                    if inp2.status != "ok":
+                        continue
+                    res.evaluations += 1
+                    res.transitions += 2
+                    o = sc.parse(T, inp2.data)
+                    if not o.ok:
+                        if mode == "C02":
+                            viol("history:parse-raises", f"loaded under {endian!r}, byte order now {now!r}, in={inp2.data[:40].hex()}: {o.sig} {o.exc!r}; model={inp2.value}", reader, base, exc=o.sig)
+                        continue
+                    n0 = len(res.violations)
+                    if mode == "C02":
+                        _c02(inp2, o, T, viol, reader, res)
+                    else:
+                        _c01_parsed(inp2, o, T, viol, reader, res, eof_tail)
+                    for v in res.violations[n0:]:
+                        v.kind = "history:" + v.kind
+                        v.cluster = "history:" + v.cluster
+                        v.detail = f"[loaded under {endian!r}, byte order switched to {now!r}] " + v.detail
+                        v.case["input"] = base.data.hex()
+            finally:
+                cs.endian = endian
         if mode == "C01" and (not compiled or False in L.err):
             # construction and writing do not depend on the reader: constructed values are checked once per definition
             for inp in ins:
